@@ -48,7 +48,7 @@ class C12(Prop):
     imports = "From Tola Require Import Py.Base Model.Fragment Model.Lookup Corr.C12."
     show_fn = "show"
     design_ref = "6/C12"
-    required_theorems = ["C12_lookup_spec", "C12_spec_unique", "C12_convex", "C12_equals_brute_force", "C12_brute_force_spec", "C12_legacy_refuted"]
+    required_theorems = ["C12_lookup_spec", "C12_spec_unique", "C12_convex", "C12_equals_brute_force", "C12_brute_force_spec", "C12_never_out_of_fuel", "C12_legacy_refuted"]
 
     def rule(self):
         return (
